@@ -404,6 +404,31 @@ fn render_block(b: &B) -> String {
     }
 }
 
+/// an ordered list that crosses the two- and three-digit marker boundaries (9/10, 99/100), with multi-block items
+/// around them: nested lists, further paragraphs, code blocks under items 9-11 and 98-102
+pub fn long_ordered_list(r: &mut Rng) -> String {
+    let n = r.range(100, 104);
+    let loose = r.chance(1, 2);
+    let mut out = String::from("# long list\n\n");
+    for k in 1..=n {
+        let pad = " ".repeat(format!("{}. ", k).len());
+        out.push_str(&format!("{}. item {}\n", k, k));
+        let near = (9..=11).contains(&k) || (98..=102).contains(&k);
+        if near && r.chance(2, 3) {
+            match r.below(3) {
+                0 => out.push_str(&format!("{}- sub {}\n{}- sub two {}\n", pad, k, pad, k)),
+                1 if loose => out.push_str(&format!("\n{}para under {}\n", pad, k)),
+                _ => out.push_str(&format!("\n{}```\n{}code {}\n{}```\n", pad, pad, k, pad)),
+            }
+        }
+        if loose {
+            out.push('\n');
+        }
+    }
+    out.push_str("\nafter the list\n");
+    out
+}
+
 /// a document: optional front-matter + blocks
 pub fn document(r: &mut Rng, p: &Profile) -> String {
     let mut g = DocGen { r, p: p.clone() };
